@@ -1,0 +1,136 @@
+//! Verification hooks (cargo feature `verif`, off by default).
+//!
+//! Nothing in here changes what the samplers compute. The module offers
+//! thread-local *override slots* (momenta / acceptance uniforms of the next
+//! HMC steps) and *trace buffers* (what an HMC step or a NUTS transition
+//! consumed and produced) for the external property-based test harness.
+
+use std::cell::RefCell;
+use std::collections::VecDeque;
+
+/// Everything one `HMC::step` consumed and proposed (row-major, f64).
+#[derive(Debug, Clone, Default, PartialEq)]
+pub struct HmcStepRecord {
+    pub n_chains: usize,
+    pub dim: usize,
+    pub positions_before: Vec<f64>,
+    pub momenta: Vec<f64>,
+    pub uniforms: Vec<f64>,
+    pub logp_current: Vec<f64>,
+    pub logp_proposed: Vec<f64>,
+    pub proposed_positions: Vec<f64>,
+    pub proposed_momenta: Vec<f64>,
+}
+
+/// One tree doubling of a NUTS transition.
+#[derive(Debug, Clone, Default, PartialEq)]
+pub struct NutsDoubling {
+    pub direction: i8,
+    pub n_prime: usize,
+    pub s_prime: bool,
+    pub moved: bool,
+    pub alpha: f64,
+    pub n_alpha: usize,
+}
+
+/// Everything one `NUTSChain::step` consumed and produced.
+#[derive(Debug, Clone, Default, PartialEq)]
+pub struct NutsStepRecord {
+    pub m: usize,
+    pub n_discard: usize,
+    pub epsilon: f64,
+    pub position_before: Vec<f64>,
+    pub mom_0: Vec<f64>,
+    pub joint_0: f64,
+    pub logu: f64,
+    pub doublings: Vec<NutsDoubling>,
+    pub n: usize,
+    pub alpha: f64,
+    pub n_alpha: usize,
+    pub position_after: Vec<f64>,
+    pub epsilon_after: f64,
+    pub epsilon_bar_after: f64,
+    pub h_bar_after: f64,
+}
+
+thread_local! {
+    static HMC_MOMENTA: RefCell<VecDeque<Vec<f64>>> = const { RefCell::new(VecDeque::new()) };
+    static HMC_UNIFORMS: RefCell<VecDeque<Vec<f64>>> = const { RefCell::new(VecDeque::new()) };
+    static HMC_TRACE: RefCell<Option<Vec<HmcStepRecord>>> = const { RefCell::new(None) };
+    static NUTS_TRACE: RefCell<Option<Vec<NutsStepRecord>>> = const { RefCell::new(None) };
+}
+
+/// Queue the momenta (row-major `[n_chains * dim]`) of a future HMC step on this thread.
+pub fn hmc_push_momenta(p: Vec<f64>) {
+    HMC_MOMENTA.with(|q| q.borrow_mut().push_back(p));
+}
+
+/// Queue the acceptance uniforms (`[n_chains]`) of a future HMC step on this thread.
+pub fn hmc_push_uniforms(u: Vec<f64>) {
+    HMC_UNIFORMS.with(|q| q.borrow_mut().push_back(u));
+}
+
+/// Drop all queued overrides.
+pub fn hmc_clear_overrides() {
+    HMC_MOMENTA.with(|q| q.borrow_mut().clear());
+    HMC_UNIFORMS.with(|q| q.borrow_mut().clear());
+}
+
+pub(crate) fn hmc_take_momenta() -> Option<Vec<f64>> {
+    HMC_MOMENTA.with(|q| q.borrow_mut().pop_front())
+}
+
+pub(crate) fn hmc_take_uniforms() -> Option<Vec<f64>> {
+    HMC_UNIFORMS.with(|q| q.borrow_mut().pop_front())
+}
+
+/// Start recording HMC steps executed on this thread.
+pub fn hmc_trace_start() {
+    HMC_TRACE.with(|t| *t.borrow_mut() = Some(Vec::new()));
+}
+
+/// Stop recording and return the records.
+pub fn hmc_trace_take() -> Vec<HmcStepRecord> {
+    HMC_TRACE.with(|t| t.borrow_mut().take().unwrap_or_default())
+}
+
+pub(crate) fn hmc_trace_enabled() -> bool {
+    HMC_TRACE.with(|t| t.borrow().is_some())
+}
+
+pub(crate) fn hmc_trace_push(r: HmcStepRecord) {
+    HMC_TRACE.with(|t| {
+        if let Some(v) = t.borrow_mut().as_mut() {
+            v.push(r)
+        }
+    });
+}
+
+/// Start recording NUTS transitions executed on this thread.
+pub fn nuts_trace_start() {
+    NUTS_TRACE.with(|t| *t.borrow_mut() = Some(Vec::new()));
+}
+
+/// Stop recording and return the records.
+pub fn nuts_trace_take() -> Vec<NutsStepRecord> {
+    NUTS_TRACE.with(|t| t.borrow_mut().take().unwrap_or_default())
+}
+
+pub(crate) fn nuts_trace_enabled() -> bool {
+    NUTS_TRACE.with(|t| t.borrow().is_some())
+}
+
+pub(crate) fn nuts_trace_push(r: NutsStepRecord) {
+    NUTS_TRACE.with(|t| {
+        if let Some(v) = t.borrow_mut().as_mut() {
+            v.push(r)
+        }
+    });
+}
+
+/// Flattens any float tensor into f64 values.
+pub fn tensor_to_f64<B: burn::prelude::Backend, const D: usize>(
+    t: &burn::prelude::Tensor<B, D>,
+) -> Vec<f64> {
+    t.to_data().iter::<f64>().collect()
+}
